@@ -52,7 +52,7 @@ KnownNeed(g) ==
   LET h == Header(g) IN
   IF Len(g) = 0 THEN 2
   ELSE IF h.hdr THEN h.total - Len(g)
-  ELSE IF h.bad THEN 0
+  ELSE IF h.bad THEN (IF Len(g) = 5 THEN 1 ELSE 0)     \* D6: the call may fail before or after reading a fifth length byte
   ELSE 1
 
 Complete(g) == LET h == Header(g) IN h.hdr /\ h.total = Len(g)
@@ -120,13 +120,6 @@ DeliveredWithinLimit == pos <= limit /\ limit <= Len(wire)
 (* Writer side: WriteTo offers the frame to an io.Writer that accepts      *)
 (* everything, or accepts only the first k bytes and reports E.            *)
 (***************************************************************************)
-(* one whole frame: first byte, minimal remaining length = bytes that follow *)
-Framed(b) ==
-  /\ Len(b) >= 2
-  /\ LET r == DecVBI(b, 2, Len(b), Len(b), FALSE) IN r.ok /\ r.next + r.val - 1 = Len(b)
-
-FrameLen(b) == LET r == DecVBI(b, 2, Len(b), Len(b), FALSE) IN r.next + r.val - 1
-
 (* the outcome WriteTo owes: offered = concatenation of all Write calls,    *)
 (* calls = their <<len, accepted, error>> log                               *)
 WriteOutcomeOK(t, offered, calls, n, err, strN) ==
